@@ -1,7 +1,8 @@
 (* C07 - Nearest-neighbour routing preserves the unitary and yields adjacent gates only.
 
    Model: Model/Route.v (`route` = to_chain_structure, `adjacent_gates`), cfg `fixed` = the code with
-   fixes/C07-circular-backward-control, C07-circular-index-mod and C07-swapalpha-arg applied,
+   fixes/C07-circular-backward-control, C07-circular-index-mod, C07-swapalpha-arg, C07-measurement-passthrough and
+   C07-adjacent-gates-passthrough applied, cfg `stage2` = only the first three,
    cfg `orig` = the unchanged tree.  No bound on the register size N, on the qubit pair or on the
    circuit length in any theorem.
 
@@ -85,18 +86,82 @@ Theorem adjacent_gates_many : forall S act, sem_laws S act -> forall N gs,
 Proof. exact RouteMain.adjacent_gates_many. Qed.
 Print Assumptions adjacent_gates_many.
 
-(* full statement "unhandled gates are passed through" is FALSE for adjacent_gates: it refuses
-   (NotImplementedError) every circuit containing such a gate - known finding, guard = all gates handled *)
+(* with fixes/C07-adjacent-gates-passthrough: gates adjacent_gates does not resolve are kept unchanged, in order *)
+Theorem adjacent_gates_passthrough : forall c g r,
+  fix_adjpass c = true -> handledb g = false ->
+  adjacent_gates c (g :: r) = option_map (cons g) (adjacent_gates c r).
+Proof. exact RouteMain.adjacent_gates_passthrough. Qed.
+Print Assumptions adjacent_gates_passthrough.
+
+Theorem adjacent_gates_passthrough_all : forall c gs,
+  fix_adjpass c = true ->
+  forallb (fun g => negb (handledb g)) gs = true -> adjacent_gates c gs = Some gs.
+Proof. exact RouteMain.adjacent_gates_passthrough_all. Qed.
+Print Assumptions adjacent_gates_passthrough_all.
+
+(* circuits mixing routed and other gates: same shape as route_many *)
+Theorem adjacent_gates_mixed : forall S act, sem_laws S act -> forall N gs,
+  Forall (gate_ok N) gs ->
+  exists outs, adjacent_gates fixed gs = Some (List.concat outs) /\
+               Forall2 (piece_ok S act Linear N) gs outs /\
+               forall st, run S act (List.concat outs) st = run S act gs st.
+Proof. exact RouteMain.adjacent_gates_mixed. Qed.
+Print Assumptions adjacent_gates_mixed.
+
+(* before that fix (cfg orig, stage2) adjacent_gates refused (NotImplementedError) every circuit containing
+   such a gate *)
 Theorem adjacent_gates_unhandled_rejected : forall c gs g,
-  In g gs -> handledb g = false -> adjacent_gates c gs = None.
+  fix_adjpass c = false -> In g gs -> handledb g = false -> adjacent_gates c gs = None.
 Proof. exact RouteMain.adjacent_gates_unhandled_rejected. Qed.
 Print Assumptions adjacent_gates_unhandled_rejected.
 
 Theorem adjacent_gates_passthrough_refuted :
-  exists c gs, Forall (fun g => in_rangeb 2 g = true) gs /\
-               forallb (fun g => negb (handledb g)) gs = true /\ adjacent_gates c gs = None.
+  exists gs, Forall (fun g => in_rangeb 2 g = true) gs /\
+             forallb (fun g => negb (handledb g)) gs = true /\
+             adjacent_gates orig gs = None /\ adjacent_gates stage2 gs = None /\
+             adjacent_gates fixed gs = Some gs.
 Proof. exact RouteMain.adjacent_gates_passthrough_refuted. Qed.
 Print Assumptions adjacent_gates_passthrough_refuted.
+
+(* ---- measurements (operation level: qc.gates holds Gate and Measurement objects) ------------ *)
+(* with fixes/C07-measurement-passthrough a measurement is passed through unchanged and in place *)
+Theorem route_ops_measurement_passthrough : forall c tp N n t s r,
+  fix_meas c = true -> meas_name_ok n = true ->
+  route_ops c tp N (OM n t s :: r) = option_map (cons (OM n t s)) (route_ops c tp N r).
+Proof. exact RouteMain.route_ops_measurement_passthrough. Qed.
+Print Assumptions route_ops_measurement_passthrough.
+
+(* on gate-only circuits route_ops is route *)
+Theorem route_ops_gates : forall c tp N gs,
+  route_ops c tp N (map OG gs) = option_map (map OG) (route c tp N gs).
+Proof. exact RouteMain.route_ops_gates. Qed.
+Print Assumptions route_ops_gates.
+
+(* any mix of gates and measurements: the output is, operation by operation, the measurement itself,
+   the unchanged gate, or a routed piece with the three properties *)
+Theorem route_ops_many : forall S act, sem_laws S act -> forall tp N ops,
+  Forall (op_ok N) ops ->
+  exists outs, route_ops fixed tp N ops = Some (List.concat outs) /\
+               Forall2 (op_piece_ok S act tp N) ops outs.
+Proof. exact RouteMain.route_ops_many. Qed.
+Print Assumptions route_ops_many.
+
+(* before the fix the measurement disappears: add_gate wraps it into a gate *)
+Theorem route_measurement_refuted :
+  exists N ops out,
+    Forall (op_ok N) ops /\
+    route_ops stage2 Linear N ops = Some out /\ route_ops orig Linear N ops = Some out /\
+    existsb is_meas ops = true /\ existsb is_meas out = false /\
+    route_ops fixed Linear N ops =
+      Some [OG (SWAPg 0 1); OG (Cg "CNOT" 1 2); OG (SWAPg 0 1); OM "M0" [0] (Some 0)].
+Proof. exact RouteMain.route_measurement_refuted. Qed.
+Print Assumptions route_measurement_refuted.
+
+(* adjacent_gates refuses circuits that contain a measurement (explicit, documented refusal; unchanged) *)
+Theorem adjacent_ops_rejects_measurement : forall c ops n t s,
+  In (OM n t s) ops -> adjacent_ops c ops = None.
+Proof. exact RouteMain.adjacent_ops_rejects_measurement. Qed.
+Print Assumptions adjacent_ops_rejects_measurement.
 
 (* ---- the executable permutation-tracking checker is sound ---------------------------------- *)
 Theorem track_sound : forall S act, sem_laws S act -> forall l g,
@@ -167,6 +232,16 @@ Proof.
   repeat constructor; try (left; reflexivity); right; split; reflexivity.
 Qed.
 
+Example ex_ops_many :   (* gates and a measurement satisfy the hypothesis of route_ops_many *)
+  Forall (op_ok 4) [OG (mkGate "SNOT" [0] [] None); OG (Cg "CNOT" 0 3); OM "M0" [3] (Some 0);
+                    OG (mkGate "X" [1] [] None)] /\
+  adjacent_gates fixed [mkGate "SNOT" [0] [] None; Cg "CNOT" 0 2] =
+    Some [mkGate "SNOT" [0] [] None; SWAPg 0 1; Cg "CNOT" 1 2; SWAPg 0 1].
+Proof.
+  split; [|reflexivity].
+  repeat constructor; try (left; reflexivity); right; split; reflexivity.
+Qed.
+
 Example ex_tok_distinguishes :   (* the token semantics is not trivial: it separates CNOT(0,4) from CNOT(4,0) *)
   tact (Cg "CNOT" 0 4) (0, 4, 0) = (0, 4, 1) /\ tact (Cg "CNOT" 4 0) (0, 4, 0) = (0, 4, 0) /\
   tact (SWAPg 0 1) (0, 4, 0) = (1, 4, 0).
@@ -219,3 +294,14 @@ Proof.
   exists outs. split; assumption.
 Qed.
 Print Assumptions adjacent_gates_many_unitary.
+
+Theorem adjacent_gates_mixed_unitary : forall (R : PhaseRing) (env : option Z -> atoms R) N gs,
+  Forall (gate_ok N) gs ->
+  exists outs, adjacent_gates fixed gs = Some (List.concat outs) /\
+               forall st, run (state R) (act_real R env) (List.concat outs) st = run (state R) (act_real R env) gs st.
+Proof.
+  intros R env N gs H.
+  destruct (RouteMain.adjacent_gates_mixed (state R) (act_real R env) (real_laws R env) N gs H) as [outs [E [_ S]]].
+  exists outs. split; assumption.
+Qed.
+Print Assumptions adjacent_gates_mixed_unitary.
